@@ -44,11 +44,13 @@ def bool_eval(expr: ast.AST, atom) -> bool | None:
 
 
 class Decider:
-    def __init__(self, prog: Program, atom: Atom, max_depth: int = 3, value_leaf=None) -> None:
+    def __init__(self, prog: Program, atom: Atom, max_depth: int = 3, value_leaf=None, symbolic: set[str] | None = None) -> None:
         self.prog = prog
         self.atom = atom
         self.max_depth = max_depth
-        # value_leaf(expr, aliases) -> hashable | None: lets a rule name non-constant results (e.g. "element.tight")
+        # qualnames of one-argument repo functions kept symbolic: f(x) evaluates to ("call", qual, value of x)
+        self.symbolic = symbolic or set()
+        # value_leaf(fi, expr, aliases) -> hashable | None: lets a rule name non-constant results (e.g. "element.tight")
         self.value_leaf = value_leaf
 
     # ------------------------------------------------------------------ expressions
@@ -56,7 +58,7 @@ class Decider:
         if e is None:
             return frozenset({UNKNOWN})
         if self.value_leaf is not None:
-            v = self.value_leaf(e, aliases)
+            v = self.value_leaf(fi, e, aliases)
             if v is not None:
                 return frozenset({v})
         if isinstance(e, ast.Constant):
@@ -67,6 +69,10 @@ class Decider:
             if e.id in benv:
                 return frozenset({benv[e.id]})
             return frozenset({UNKNOWN})
+        if isinstance(e, ast.Attribute):
+            k = _chain(e)
+            if k is not None and k in env:
+                return env[k]
         if isinstance(e, ast.IfExp):
             t = bool_eval(e.test, self._atom(benv, aliases))
             if t is True:
@@ -74,6 +80,10 @@ class Decider:
             if t is False:
                 return self.ev(fi, e.orelse, env, benv, aliases, depth)
             return self.ev(fi, e.body, env, benv, aliases, depth) | self.ev(fi, e.orelse, env, benv, aliases, depth)
+        if isinstance(e, ast.Call) and self.symbolic:
+            t = self.prog.resolve_call(fi, e)
+            if isinstance(t, list) and len(t) == 1 and t[0].qual in self.symbolic and len(e.args) == 1 and not e.keywords:
+                return frozenset(("call", t[0].qual, x) for x in self.ev(fi, e.args[0], env, benv, aliases, depth))
         if isinstance(e, ast.Call) and depth < self.max_depth:
             t = self.prog.resolve_call(fi, e)
             if isinstance(t, list) and len(t) == 1 and not isinstance(t[0].node, ast.Lambda):
@@ -87,9 +97,11 @@ class Decider:
 
     def _atom(self, benv: dict, aliases: frozenset):
         def atom(leaf: ast.AST) -> bool | None:
-            if isinstance(leaf, ast.Name) and leaf.id in benv:
+            # the valuation wins over what the code assigned: a rule may *assume* "this is a later iteration"
+            v = self.atom(leaf, aliases)
+            if v is None and isinstance(leaf, ast.Name) and leaf.id in benv:
                 return benv[leaf.id]
-            return self.atom(leaf, aliases)
+            return v
         return atom
 
     def _bind_aliases(self, fi: FuncInfo, callee: FuncInfo, call: ast.Call, aliases: frozenset) -> frozenset:
@@ -115,11 +127,12 @@ class Decider:
         """Enumerate paths from `start` until stop(node) (not tested on start) or a return.
         Yields (end node or None, env, benv, outs) where outs are the values appended / returned on the path."""
         results = []
-        stack = [(start, dict(env0 or {}), {}, (), (start.id,))]
+        stack = [(start, dict(env0 or {}), {}, (), (start.id,), aliases)]
         budget = 4000
         while stack and budget > 0:
             budget -= 1
-            n, env, benv, outs, seen = stack.pop()
+            n, env, benv, outs, seen, aliases = stack.pop()
+            env = {**env, "__aliases__": aliases}
             if len(seen) > 1 and stop is not None and stop(n):
                 results.append((n, env, benv, outs))
                 continue
@@ -127,6 +140,12 @@ class Decider:
                 a = n.ast
                 if isinstance(a, (ast.Assign, ast.AnnAssign)) and getattr(a, "value", None) is not None:
                     tg = a.targets[0] if isinstance(a, ast.Assign) else a.target
+                    tgk = _chain(tg)
+                    if tgk is not None and not isinstance(tg, ast.Name):
+                        # store into an attribute (self.x = ...): remembered in the environment and reported as an event
+                        v = self.ev(fi, a.value, env, benv, aliases, depth)
+                        env = {**env, tgk: v}
+                        outs = outs + (("store", tgk, v),)
                     if isinstance(tg, ast.Name):
                         v = self.ev(fi, a.value, env, benv, aliases, depth)
                         env = {**env, tg.id: v}
@@ -147,6 +166,8 @@ class Decider:
                             for i in range(len(tg.elts)):
                                 vals.append(frozenset(w[i] if isinstance(w, tuple) and len(w) == len(tg.elts) else UNKNOWN for w in whole))
                         env = {**env, **{x.id: v for x, v in zip(tg.elts, vals)}}
+                elif isinstance(a, ast.AugAssign) and isinstance(a.target, ast.Name):
+                    outs = outs + (("aug", a.target.id, n),)
                 elif isinstance(a, ast.Expr) and isinstance(a.value, ast.Call) and isinstance(a.value.func, ast.Attribute) \
                         and a.value.func.attr in ("append", "add") and len(a.value.args) == 1:
                     outs = outs + (self.ev(fi, a.value.args[0], env, benv, aliases, depth),)
@@ -171,7 +192,7 @@ class Decider:
                 if s.id in seen and s.kind in ("for", "test", "while"):
                     results.append((s, env, benv, outs))
                     continue
-                stack.append((s, env, benv, outs, seen + (s.id,)))
+                stack.append((s, env, benv, outs, seen + (s.id,), aliases))
         if budget <= 0:
             results.append((None, {}, {}, (frozenset({UNKNOWN}),)))
         return results
@@ -214,3 +235,132 @@ def role_of(e: ast.AST, aliases: frozenset) -> set[str]:
     if txt is None:
         return set()
     return alias_roles(aliases).get(txt, set())
+
+
+# ------------------------------------------------------------------------------------------------------------------
+# Position-in-loop predicates: "is this the first / the last iteration?" however it is spelled.
+class LoopFacts:
+    """What a `for` loop offers for telling the first (and last) iteration apart:
+      flags  - local names that hold a constant on the first iteration and the opposite constant on all later ones
+               (initialised before the loop, overwritten on every path through the body)
+      index  - names bound to the 0-based index of enumerate(X)
+      seq    - text of the iterated sequence X (for `index == len(X) - 1`)"""
+
+    def __init__(self, prog: Program, fi: FuncInfo, head: Node) -> None:
+        flow = prog.flow(fi)
+        self.head = head
+        self.flags: dict[str, bool] = {}
+        self.index: set[str] = set()
+        self.seq: str | None = None
+        body = flow.loop_body_nodes(head)
+        st = head.ast
+        it = st.iter
+        if isinstance(it, ast.Call) and isinstance(it.func, ast.Name) and it.func.id == "enumerate" and it.args \
+                and isinstance(st.target, ast.Tuple) and st.target.elts and isinstance(st.target.elts[0], ast.Name):
+            start = it.args[1] if len(it.args) > 1 else next((k.value for k in it.keywords if k.arg == "start"), None)
+            if start is None or (isinstance(start, ast.Constant) and start.value == 0):
+                name = st.target.elts[0].id
+                stored = [n for n in body if n is not head and n.kind == "stmt" and any(
+                    isinstance(x, ast.Name) and x.id == name and isinstance(x.ctx, ast.Store) for x in ast.walk(n.ast))]
+                if not stored:
+                    self.index.add(name)
+                    self.seq = ast.unparse(it.args[0])
+        # flags
+        cands: dict[str, list[Node]] = {}
+        for n in body:
+            if n.kind == "stmt" and isinstance(n.ast, ast.Assign) and len(n.ast.targets) == 1 and isinstance(n.ast.targets[0], ast.Name) \
+                    and isinstance(n.ast.value, ast.Constant) and isinstance(n.ast.value.value, bool):
+                cands.setdefault(n.ast.targets[0].id, []).append(n)
+        entries = [s for s, lab in head.succ if lab == "iter"]
+        for name, nodes in cands.items():
+            inner_vals = {n.ast.value.value for n in nodes}
+            if len(inner_vals) != 1:
+                continue
+            # every other store to the name inside the loop disqualifies it
+            other = [n for n in body if n not in nodes and n.kind in ("stmt", "for", "with") and n is not head and any(
+                isinstance(x, ast.Name) and x.id == name and isinstance(x.ctx, ast.Store) for x in ast.walk(n.ast) if not isinstance(x, (ast.FunctionDef, ast.Lambda)))]
+            if other:
+                continue
+            outer = [d for d in flow.reaching(head, name) if d.node not in body]
+            if not outer or not all(d.kind == "assign" and isinstance(d.value, ast.Constant) and isinstance(d.value.value, bool) for d in outer):
+                continue
+            outer_vals = {d.value.value for d in outer}
+            inner = next(iter(inner_vals))
+            if outer_vals != {not inner}:
+                continue
+            # overwritten on every complete trip through the body (a `continue` that skips it would keep "first" alive)
+            if all(flow.cfg.path_avoiding(e, head, set(nodes)) is None for e in entries):
+                self.flags[name] = not inner  # value on the first iteration
+
+    def first_atom(self, first: bool):
+        def atom(leaf: ast.AST, _aliases: frozenset = frozenset()) -> bool | None:
+            if isinstance(leaf, ast.Name):
+                if leaf.id in self.flags:
+                    return self.flags[leaf.id] if first else not self.flags[leaf.id]
+                if leaf.id in self.index:
+                    return not first
+            if isinstance(leaf, ast.Compare) and len(leaf.ops) == 1:
+                l, r, op = leaf.left, leaf.comparators[0], leaf.ops[0]
+                if isinstance(r, ast.Name) and r.id in self.index and isinstance(l, ast.Constant):
+                    l, r = r, l
+                    op = {ast.Lt: ast.Gt, ast.Gt: ast.Lt, ast.LtE: ast.GtE, ast.GtE: ast.LtE}.get(type(op), type(op))()
+                if isinstance(l, ast.Name) and l.id in self.index and isinstance(r, ast.Constant) and isinstance(r.value, int):
+                    k = r.value
+                    table = {(ast.Eq, 0): True, (ast.NotEq, 0): False, (ast.Gt, 0): False, (ast.GtE, 1): False, (ast.Lt, 1): True, (ast.LtE, 0): True}
+                    v = table.get((type(op), k))
+                    if v is not None:
+                        return v if first else not v
+            return None
+        return atom
+
+    def last_atom(self, last: bool):
+        """index == len(X) - 1 and its equivalent spellings."""
+        def lenx(e: ast.AST) -> bool:
+            return isinstance(e, ast.Call) and isinstance(e.func, ast.Name) and e.func.id == "len" and len(e.args) == 1 \
+                and self.seq is not None and ast.unparse(e.args[0]) == self.seq
+
+        def idx_plus(e: ast.AST) -> int | None:
+            if isinstance(e, ast.Name) and e.id in self.index:
+                return 0
+            if isinstance(e, ast.BinOp) and isinstance(e.op, (ast.Add, ast.Sub)) and isinstance(e.left, ast.Name) and e.left.id in self.index \
+                    and isinstance(e.right, ast.Constant) and isinstance(e.right.value, int):
+                return e.right.value if isinstance(e.op, ast.Add) else -e.right.value
+            return None
+
+        def len_plus(e: ast.AST) -> int | None:
+            if lenx(e):
+                return 0
+            if isinstance(e, ast.BinOp) and isinstance(e.op, (ast.Add, ast.Sub)) and lenx(e.left) and isinstance(e.right, ast.Constant) \
+                    and isinstance(e.right.value, int):
+                return e.right.value if isinstance(e.op, ast.Add) else -e.right.value
+            return None
+
+        def atom(leaf: ast.AST, _aliases: frozenset = frozenset()) -> bool | None:
+            if isinstance(leaf, ast.Compare) and len(leaf.ops) == 1:
+                l, r, op = leaf.left, leaf.comparators[0], type(leaf.ops[0])
+                a, b = idx_plus(l), len_plus(r)
+                if a is None or b is None:
+                    a2, b2 = idx_plus(r), len_plus(l)
+                    if a2 is None or b2 is None:
+                        return None
+                    a, b = a2, b2
+                    op = {ast.Lt: ast.Gt, ast.Gt: ast.Lt, ast.LtE: ast.GtE, ast.GtE: ast.LtE}.get(op, op)
+                # index + a  OP  len + b   <=>   index OP len + (b - a); index ranges over 0 .. len-1
+                d = b - a
+                v = None
+                if op is ast.Eq and d == -1:
+                    v = True
+                elif op is ast.NotEq and d == -1:
+                    v = False
+                elif op is ast.Lt and d == -1:
+                    v = False
+                elif op is ast.GtE and d == -1:
+                    v = True
+                elif op is ast.LtE and d == -2:
+                    v = False
+                elif op is ast.Gt and d == -2:
+                    v = True
+                if v is not None:
+                    return v if last else not v
+            return None
+        return atom
